@@ -118,7 +118,7 @@ def get_keywords(calc_input, molecule):
         else:
             new_keywords.append(keyword)
 
-    if any("task scf" in kw.lower() for kw in new_keywords) and not any(
+    if not any(kw.lower().startswith("dft") for kw in new_keywords) and not any(
         "nopen" in kw.lower() for kw in new_keywords
     ):
         # Need to set the spin state
